@@ -34,7 +34,7 @@ CLS_KINDS = {
     "bitfield": ("int {n} : 3;", True), "methbody": ("int {n}() const {{ return 1; }}", False),
 }
 ENUM_KINDS = {"e": ("{n},", True), "eval": ("{n} = 1 + 2,", True), "elast": ("{n}", True), "elastval": ("{n} = 4", True), "eattr": ("{n} [[deprecated]],", True)}
-ARRS = ["above", "above2", "block", "blockml", "detached", "trailing", "plain", "plain_between", "none", "bang", "above_barrier", "detached_block", "trailing_block", "plain_trailing"]
+ARRS = ["above", "above2", "block", "blockml", "detached", "trailing", "plain", "plain_between", "none", "bang", "above_barrier", "detached_block", "trailing_block", "plain_trailing", "plain_trailing_block"]
 TRAIL = ("trailing", "trailing_block")
 
 
@@ -58,6 +58,8 @@ def arrange(arr, decl, i, barrier):
         return f"{decl} /**< {t} */\n"
     if arr == "plain_trailing":
         return f"{decl} // plain{i}\n"
+    if arr == "plain_trailing_block":
+        return f"{decl} /* plain{i} */\n"
     if arr == "detached_block":
         return f"/** {t} */\n\n{decl}\n"
     if arr == "plain":
@@ -171,7 +173,7 @@ def pair_judge(ctx, k1, a1, k2, a2):
         elif v1 and a2 in ("plain",):
             e1 = ("unspec",)
         elif not v1:
-            e2 = ("unspec",) if a2 in ("none", "plain", "above", "above2", "block", "blockml", "bang", "plain_between", "trailing", "trailing_block", "plain_trailing") else e2
+            e2 = ("unspec",) if a2 in ("none", "plain", "above", "above2", "block", "blockml", "bang", "plain_between", "trailing", "trailing_block", "plain_trailing", "plain_trailing_block") else e2
     if a1 in TRAIL and v1 is None:
         e1 = ("unspec",)
     if a2 in TRAIL and v2 is None:
@@ -232,9 +234,9 @@ def known_class(args, bad):
     blockish = ("cls", "ns", "nested")
     if (k1 in blockish and a1 in TRAIL) or (k2 in blockish and a2 in TRAIL):
         return "D18a"
-    if k1 in ("var2", "field2") and a1 in TRAIL + ("plain_trailing",):
-        return "D18b"  # any comment after the declarators ends their line inside the token; the second declarator's scan starts in the next line
-    if k2 in ("var2", "field2") and a2 in TRAIL:
+    if k1 in ("var2", "field2") and a1 in TRAIL + ("plain_trailing", "plain_trailing_block") and "DOC1" not in bad:
+        return "D18b"  # the listed defect concerns what the SECOND declarator's scan does to the next declaration (DOC2); X1's own doc must be right  # any comment after the declarators ends their line inside the token; the second declarator's scan starts in the next line
+    if k2 in ("var2", "field2") and a2 in TRAIL and "DOC1" not in bad and not bad.startswith("X2 ("):
         return "D18b"
     return "other"
 
